@@ -19,6 +19,7 @@ def main():
     ap.add_argument("--unit", default=None)
     ap.add_argument("--replay", default=None)
     ap.add_argument("--list", action="store_true")
+    ap.add_argument("--benign", action="store_true", help="apply the corpus of behaviour-preserving refactors; every check must stay at exit 0 (no false alarm)")
     ap.add_argument("--selftest", action="store_true", help="apply the mutant corpus of this property in a scratch copy; every mutant must fail the expected obligation")
     a = ap.parse_args()
     seed = int(os.environ.get("VERIF_SEED", "0") or 0)
@@ -31,6 +32,8 @@ def main():
         return 0
     if a.replay:
         return replay(a.replay)
+    if a.benign:
+        return benign(a.prop)
     if not a.prop:
         ap.error("property id required")
     if a.selftest:
@@ -42,6 +45,39 @@ def main():
             print(f"CHECKER-ERROR mutation self-test of {a.prop} failed: a corpus mutant was not detected")
             return 3
     return rc
+
+
+def benign(only_prop=None):
+    """behaviour-preserving refactors of /repo (benign/*.patch) must not raise any alarm: exit 0 required"""
+    import shutil
+    import subprocess
+    import tempfile
+
+    here = os.path.dirname(os.path.dirname(os.path.abspath(__file__)))
+    idx = json.load(open(os.path.join(here, "benign", "index.json")))
+    bad = 0
+    for m in idx:
+        for prop in m["props"]:
+            if only_prop and prop != only_prop:
+                continue
+            scratch = tempfile.mkdtemp(prefix="fvc_benign_")
+            try:
+                shutil.copytree("/repo/flodym", os.path.join(scratch, "flodym"))
+                r = subprocess.run(["patch", "-p1", "-s", "-d", scratch, "-i", os.path.join(here, "benign", m["patch"])], capture_output=True, text=True)
+                if r.returncode != 0:
+                    print(f"BENIGN {m['patch']}: patch does not apply (skipped)")
+                    continue
+                env = dict(os.environ, FVC_REPO=scratch, FVC_EVIDENCE_DIR=os.path.join(scratch, "evidence"), FVC_REPLAY_DIR=os.path.join(scratch, "replays"))
+                r = subprocess.run([os.path.join(here, "check"), prop, "--tier", "quick"], capture_output=True, text=True, env=env)
+                last = r.stdout.strip().splitlines()[-1] if r.stdout.strip() else ""
+                notes = [l for l in r.stdout.splitlines() if l.startswith(("VIOLATION", "UNDECIDED", "CHECKER"))][:2]
+                print(f"BENIGN {m['patch']} / {prop}: exit={r.returncode} {'ok' if r.returncode == 0 else 'ALARM ' + ' | '.join(n[:160] for n in notes)}")
+                if r.returncode != 0:
+                    bad += 1
+            finally:
+                shutil.rmtree(scratch, ignore_errors=True)
+    print(f"BENIGN: {bad} alarms")
+    return 0 if bad == 0 else 3
 
 
 def selftest(prop):
